@@ -13,6 +13,15 @@ import (
 	"github.com/WuKongIM/WuKongIM/pkg/db/internal/keycodec"
 )
 
+// VerifC11OpenMem opens a metadata DB like Open does, on an in-memory file system.
+func VerifC11OpenMem() (*DB, error) {
+	eng, err := engine.VerifC11OpenMem(engine.Options{})
+	if err != nil {
+		return nil, err
+	}
+	return &DB{meta: NewDB(eng), engine: eng}, nil
+}
+
 var VerifC11Magic = slotSnapshotMagic
 
 const (
